@@ -13,7 +13,8 @@
       x/quarantine/quarantine.go              findAddresses, AcceptFrom, DeclineFrom, IsFullyAccepted,
                                               GetAllFromAddrs, QuarantineRecordSuffixIndex.Simplify
       x/quarantine/keys.go                    CreateRecordKey / createRecordSuffix
-      x/quarantine/keeper/genesis.go          InitGenesis (state construction, see [genesis])
+      x/quarantine/keeper/genesis.go          InitGenesis (state construction and the holder-covers-records
+                                              check, see [init_genesis])
       forked cosmos-sdk x/bank/keeper         msgServer.Send, msgServer.MultiSend, SendCoins,
                                               InputOutputCoinsProv (restriction once per input/output
                                               pair), subUnlockedCoins, addCoins
@@ -472,7 +473,8 @@ Definition run (s : state) (ops : list op) : state := fold_left (fun s o => fst 
 End WithHolder.
 
 (** ** Genesis: InitGenesis writes opt-ins, auto-responses and records (all senders unaccepted,
-    through SetQuarantineRecord); balances are whatever the bank holds. *)
+    through SetQuarantineRecord), then checks that the holder covers the imported total; balances
+    are whatever the bank holds. *)
 Record genesis := {
   g_optin : list addr;
   g_auto  : list (addr * addr * auto);
@@ -488,17 +490,34 @@ Definition bal_of_list (l : list (addr * denom * Z)) : bal :=
 Definition empty_state (b : bal) (x : list (denom * list addr)) : state :=
   {| s_optin := []; s_auto := []; s_recs := []; s_idx := []; s_bal := b; s_xfer := x |}.
 
-Definition init_genesis (g : genesis) : option state :=
+(* totalQuarantined of InitGenesis: the coins of ALL genesis entries added up (also of an entry that a
+   later entry with the same key overwrites) *)
+Definition funds_total (funds : list (addr * list addr * coins * bool)) (d : denom) : Z :=
+  fold_right (fun e acc => amt (snd (fst e)) d + acc) 0 funds.
+Definition funds_denoms (funds : list (addr * list addr * coins * bool)) : list denom :=
+  flat_map (fun e => denoms (snd (fst e))) funds.
+
+Definition gen_fund (st : option state) (e : addr * list addr * coins * bool) : option state :=
+  match st with
+  | None => None
+  | Some s =>
+      let '(to, froms, c, decl) := e in
+      set_record s to {| q_unacc := froms; q_acc := []; q_coins := c; q_declined := decl |}
+  end.
+
+(* InitGenesis; [None] = it panics: a record without senders, or the funds holder [h] does not hold
+   the total of the imported records in some denom (holderBalance.SafeSub(total) has a negative
+   amount; a denom the holder does not hold at all counts as 0) *)
+Definition init_genesis (h : addr) (g : genesis) : option state :=
   let s0 := empty_state (bal_of_list (g_bal g)) (g_xfer g) in
   let s1 := fold_left opt_in (g_optin g) s0 in
   let s2 := fold_left (fun s e => let '(to, from, r) := e in set_auto s to from r) (g_auto g) s1 in
-  fold_left (fun st e =>
-               match st with
-               | None => None
-               | Some s =>
-                   let '(to, froms, c, decl) := e in
-                   set_record s to {| q_unacc := froms; q_acc := []; q_coins := c; q_declined := decl |}
-               end) (g_funds g) (Some s2).
+  match fold_left gen_fund (g_funds g) (Some s2) with
+  | None => None
+  | Some s =>
+      if forallb (fun d => funds_total (g_funds g) d <=? s_bal s h d) (funds_denoms (g_funds g))
+      then Some s else None
+  end.
 
 (** ** Quantities the property speaks about *)
 Definition rec_total (l : list (rkey * qrec)) (d : denom) : Z :=
